@@ -79,6 +79,8 @@ def _scores(rng):
     npos, nneg = rng.randint(2, 30), rng.randint(2, 30)
     if rng.random() < 0.25:
         npos, nneg = rng.randint(2, 5), rng.randint(2, 5)
+    elif rng.random() < 0.06:
+        npos, nneg = rng.randint(31, 250), rng.randint(31, 250)
     style = rng.choice(["dyadic", "generic", "tiefree", "shared", "separated"])
     if style == "dyadic":
         pos = [rng.randint(-16, 24) / 8.0 for _ in range(npos)]
@@ -165,7 +167,9 @@ def _gen_aggr(rng):
 
 
 def _gen_rot(rng):
-    n = rng.randint(1, 12)
+    # class sizes far beyond the toy range too: whether k/n sits on the 1/n or (n-1)/n boundary is an exact question,
+    # and float rewrites of the test (p*n < 1, 1-p < 1/n, ...) go wrong only for particular n (49, 98, 103, ...)
+    n = rng.randint(1, 12) if rng.random() < 0.5 else rng.randint(13, 3000)
     e = rng.choice([0, 0, 0, 0, 3, 8, 2 * n, 7 * n])
     ks = sorted(set([0, n, min(1, n), max(n - 1, 0)] + [rng.randint(0, n) for _ in range(4)]))
     if rng.random() < 0.5:
